@@ -71,6 +71,9 @@ type bad struct{}
 
 type rtype struct {
 	t types.Type
+	// ro marks a reflect.Value obtained through an unexported struct field (reflect's flagRO):
+	// CanInterface and CanSet report false for it. Always false in reflect.Type values.
+	ro bool
 }
 
 // reflect.Value struct values don't have a fixed shape, since the
